@@ -94,4 +94,301 @@ theorem xlsKind_lookup (kind : SheetType) (dt : Nat) (h : xlsKindCode kind = som
     dt < 256 ∧ Gen.xlsKindTable.lookup dt = some kind := by
   cases kind <;> simp [xlsKindCode, codeOf, Gen.xlsKindTable] at h <;> subst h <;> decide
 
+/-! ## xlsx `read_workbook` over events -/
+
+theorem ridKey_ne (k : String) (h : ridKeyOk k) : k ≠ "name" ∧ k ≠ "state" := by
+  constructor <;> (intro hk; subst hk; exact absurd h.1 (by decide))
+
+theorem xlsxVis_lookup (v : SheetVisible) : Gen.xlsxVisTable.lookup (xlsxVisName v) = some v := by
+  cases v <;> decide
+
+theorem sheetAttrs_name (rels : List (String × String)) (v : String) (rest : List (String × String)) (acc : SheetAcc) :
+    sheetAttrs rels (("name", v) :: rest) acc = sheetAttrs rels rest { acc with name := v } := by
+  rw [sheetAttrs]; simp only [if_true]
+
+theorem sheetAttrs_other (rels : List (String × String)) (k v : String) (rest : List (String × String)) (acc : SheetAcc)
+    (h1 : k ≠ "name") (h2 : k ≠ "state") (h3 : ¬ ((afterColon k.toList).isSome = true ∧ localName k = "id")) :
+    sheetAttrs rels ((k, v) :: rest) acc = sheetAttrs rels rest acc := by
+  rw [sheetAttrs]; simp only [h1, h2, h3, if_false]
+
+theorem sheetAttrs_state (rels : List (String × String)) (vis : SheetVisible) (rest : List (String × String)) (acc : SheetAcc) :
+    sheetAttrs rels (("state", xlsxVisName vis) :: rest) acc = sheetAttrs rels rest { acc with visible := vis } := by
+  rw [sheetAttrs]
+  have : ("state" : String) ≠ "name" := by decide
+  simp only [this, if_false, if_true, xlsxVis_lookup]
+
+theorem sheetAttrs_rid (rels : List (String × String)) (k v t : String) (acc : SheetAcc)
+    (hk : ridKeyOk k) (ht : rels.lookup v = some t) :
+    sheetAttrs rels [(k, v)] acc = .ok { acc with path := xlsxPath t.toList } := by
+  obtain ⟨hn, hst⟩ := ridKey_ne k hk
+  rw [sheetAttrs]
+  have hc : (afterColon k.toList).isSome = true ∧ localName k = "id" := hk
+  simp only [hn, hst, hc, if_false, and_self, if_true, ht, sheetAttrs]
+
+theorem xlsxSheet_attrs (rels : List (String × String)) (ridKey : String) (hk : ridKeyOk ridKey) (s : XSheet) (hs : s.ok rels) :
+    xlsxSheet rels (sheetAttrList ridKey s) = .ok (xsheetDecoded s) := by
+  obtain ⟨h1, h2, h3⟩ := hs
+  unfold sheetAttrList
+  have hsid : sheetAttrs rels (("sheetId", s.sheetId) :: ((if s.writeState then [("state", xlsxVisName s.vis)] else []) ++ [(ridKey, s.rid)])) { name := s.name }
+      = .ok { name := s.name, path := xlsxPath s.target.toList, visible := s.vis } := by
+    rw [sheetAttrs_other rels "sheetId" _ _ _ (by decide) (by decide) (by decide)]
+    cases hw : s.writeState with
+    | true =>
+      simp only [if_true, List.cons_append, List.nil_append]
+      rw [sheetAttrs_state, sheetAttrs_rid rels ridKey s.rid s.target _ hk h1]
+    | false =>
+      have hv := h3 hw
+      simp only [Bool.false_eq_true, if_false, List.nil_append]
+      rw [sheetAttrs_rid rels ridKey s.rid s.target _ hk h1, hv]
+  unfold xlsxSheet
+  simp only [List.cons_append, List.nil_append]
+  rw [sheetAttrs_name]
+  have : ({ name := s.name } : SheetAcc) = { ({} : SheetAcc) with name := s.name } := rfl
+  rw [← this, hsid]
+  simp only [h2, xsheetDecoded]
+
+section steps
+variable (pm : String → Bool) (rels : List (String × String))
+
+theorem loop_start_sheet (n : String) (attrs : List (String × String)) (rest : List Ev)
+    (sh : List (Sheet String × List Char)) (nm : List (String × String)) (d : Bool)
+    (hn : localName n = "sheet") (s : Sheet String × List Char) (h : xlsxSheet rels attrs = .ok s) :
+    xlsxLoopWith pm rels (.start n attrs :: rest) ⟨sh, nm, d, none⟩ = xlsxLoopWith pm rels rest ⟨sh ++ [s], nm, d, none⟩ := by
+  rw [xlsxLoopWith]; simp only [hn, if_true, h]
+
+theorem loop_start_skip (n : String) (attrs : List (String × String)) (rest : List Ev) (st : XlsxSt) (hc : st.cur = none)
+    (h1 : localName n ≠ "sheet") (h2 : pm n = false) (h3 : localName n ≠ "definedName") :
+    xlsxLoopWith pm rels (.start n attrs :: rest) st = xlsxLoopWith pm rels rest st := by
+  obtain ⟨sh, nm, d, cur⟩ := st
+  simp only at hc; subst hc
+  rw [xlsxLoopWith]; simp only [h1, h2, h3, if_false, Bool.false_eq_true]
+
+theorem loop_start_pr (n : String) (attrs : List (String × String)) (rest : List Ev)
+    (sh : List (Sheet String × List Char)) (nm : List (String × String)) (d : Bool)
+    (h1 : localName n ≠ "sheet") (h2 : pm n = true) :
+    xlsxLoopWith pm rels (.start n attrs :: rest) ⟨sh, nm, d, none⟩ = xlsxLoopWith pm rels rest ⟨sh, nm, date1904Attr attrs, none⟩ := by
+  rw [xlsxLoopWith]; simp only [h1, h2, if_false, if_true]
+
+theorem loop_start_dn (n : String) (attrs : List (String × String)) (rest : List Ev)
+    (sh : List (Sheet String × List Char)) (nm : List (String × String)) (d : Bool) (name : String)
+    (h2 : pm n = false) (h3 : localName n = "definedName") (h : attrs.lookup "name" = some name) :
+    xlsxLoopWith pm rels (.start n attrs :: rest) ⟨sh, nm, d, none⟩ = xlsxLoopWith pm rels rest ⟨sh, nm, d, some (name, n, "")⟩ := by
+  have h1' : ¬ (("definedName" : String) = "sheet") := by decide
+  rw [xlsxLoopWith]; simp only [h2, h3, h1', if_false, if_true, h, Bool.false_eq_true]
+
+theorem loop_end_skip (n : String) (rest : List Ev) (st : XlsxSt) (hc : st.cur = none) (h : localName n ≠ "workbook") :
+    xlsxLoopWith pm rels (.end_ n :: rest) st = xlsxLoopWith pm rels rest st := by
+  obtain ⟨sh, nm, d, cur⟩ := st
+  simp only at hc; subst hc
+  rw [xlsxLoopWith]; simp only [h, if_false]
+
+theorem loop_end_workbook (n : String) (rest : List Ev) (st : XlsxSt) (hc : st.cur = none) (h : localName n = "workbook") :
+    xlsxLoopWith pm rels (.end_ n :: rest) st = .ok st := by
+  obtain ⟨sh, nm, d, cur⟩ := st
+  simp only at hc; subst hc
+  rw [xlsxLoopWith]; simp only [h, if_true]
+
+theorem loop_text_in (t : String) (rest : List Ev) (sh : List (Sheet String × List Char)) (nm : List (String × String)) (d : Bool)
+    (name q val : String) :
+    xlsxLoopWith pm rels (.text t :: rest) ⟨sh, nm, d, some (name, q, val)⟩ =
+      xlsxLoopWith pm rels rest ⟨sh, nm, d, some (name, q, val ++ t)⟩ := by
+  rw [xlsxLoopWith] <;> simp
+
+theorem loop_end_in (rest : List Ev) (sh : List (Sheet String × List Char)) (nm : List (String × String)) (d : Bool)
+    (name q val : String) :
+    xlsxLoopWith pm rels (.end_ q :: rest) ⟨sh, nm, d, some (name, q, val)⟩ =
+      xlsxLoopWith pm rels rest ⟨sh, nm ++ [(name, val)], d, none⟩ := by
+  rw [xlsxLoopWith]; simp only [if_true]
+
+end steps
+
+theorem loop_sheets (pm : String → Bool) (rels : List (String × String)) (q : String → String) (hq : QOk q)
+    (ridKey : String) (hk : ridKeyOk ridKey) :
+    ∀ (sheets : List XSheet), (∀ s ∈ sheets, s.ok rels) → ∀ (rest : List Ev) (sh : List (Sheet String × List Char))
+      (nm : List (String × String)) (d : Bool),
+      xlsxLoopWith pm rels (sheets.flatMap (sheetEvents q ridKey) ++ rest) ⟨sh, nm, d, none⟩ =
+      xlsxLoopWith pm rels rest ⟨sh ++ sheets.map xsheetDecoded, nm, d, none⟩ := by
+  intro sheets
+  induction sheets with
+  | nil => intro _ rest sh nm d; simp
+  | cons s ss ih =>
+    intro hall rest sh nm d
+    have hs := hall s (by simp)
+    have hss : ∀ t ∈ ss, t.ok rels := fun t ht => hall t (by simp [ht])
+    simp only [List.flatMap_cons, sheetEvents, List.cons_append, List.nil_append]
+    rw [loop_start_sheet pm rels _ _ _ _ _ _ (hq "sheet") _ (xlsxSheet_attrs rels ridKey hk s hs)]
+    rw [loop_end_skip pm rels _ _ _ rfl (by rw [hq "sheet"]; decide)]
+    rw [ih hss]
+    simp [List.append_assoc]
+
+theorem loop_texts (pm : String → Bool) (rels : List (String × String)) :
+    ∀ (chunks : List String) (rest : List Ev) (sh : List (Sheet String × List Char)) (nm : List (String × String)) (d : Bool)
+      (name q val : String),
+      xlsxLoopWith pm rels (chunks.map Ev.text ++ rest) ⟨sh, nm, d, some (name, q, val)⟩ =
+      xlsxLoopWith pm rels rest ⟨sh, nm, d, some (name, q, chunks.foldl (· ++ ·) val)⟩ := by
+  intro chunks
+  induction chunks with
+  | nil => intros; rfl
+  | cons c cs ih =>
+    intro rest sh nm d name q val
+    simp only [List.map_cons, List.cons_append, List.foldl_cons]
+    rw [loop_text_in, ih]
+
+theorem loop_names (pm : String → Bool) (rels : List (String × String)) (q : String → String) (hq : QOk q)
+    (hpm : pm (q "definedName") = false) :
+    ∀ (names : List (String × List String)) (rest : List Ev) (sh : List (Sheet String × List Char))
+      (nm : List (String × String)) (d : Bool),
+      xlsxLoopWith pm rels (names.flatMap (definedNameEvents q) ++ rest) ⟨sh, nm, d, none⟩ =
+      xlsxLoopWith pm rels rest ⟨sh, nm ++ names.map dnValue, d, none⟩ := by
+  intro names
+  induction names with
+  | nil => intro rest sh nm d; simp
+  | cons n ns ih =>
+    intro rest sh nm d
+    simp only [List.flatMap_cons, definedNameEvents, List.cons_append, List.nil_append, List.append_assoc]
+    rw [loop_start_dn pm rels _ _ _ _ _ _ n.1 hpm (hq "definedName") (by simp [List.lookup])]
+    rw [loop_texts, loop_end_in, ih]
+    simp [List.append_assoc, dnValue]
+
+def prMatchFixed : String → Bool := fun n => localName n == "workbookPr"
+
+theorem pm_q (q : String → String) (hq : QOk q) (s : String) : prMatchFixed (q s) = (s == "workbookPr") := by
+  simp [prMatchFixed, hq s]
+
+
+/-! ## ods `parse_content` over events -/
+
+section
+theorem ods_top_start_skip (n : String) (attrs : List (String × String)) (rest : List Ev)
+    (sh : List (Sheet String)) (nm : List (String × String)) (sty : List (String × SheetVisible)) (sn : Option String)
+    (h1 : n ≠ "style:style") (h2 : n ≠ "style:table-properties") (h3 : n ≠ "table:table") (h4 : n ≠ "table:named-expressions") :
+    odsLoop (.start n attrs :: rest) ⟨sh, nm, sty, sn, .top⟩ = odsLoop rest ⟨sh, nm, sty, sn, .top⟩ := by
+  rw [odsLoop]; simp only [h1, h2, h3, h4, if_false, and_false]
+
+theorem ods_top_end (n : String) (rest : List Ev) (sh : List (Sheet String)) (nm : List (String × String))
+    (sty : List (String × SheetVisible)) (sn : Option String) :
+    odsLoop (.end_ n :: rest) ⟨sh, nm, sty, sn, .top⟩ = odsLoop rest ⟨sh, nm, sty, sn, .top⟩ := by
+  rw [odsLoop] <;> simp
+
+theorem ods_style (st : String × Option Bool) (rest : List Ev) (sh : List (Sheet String)) (nm : List (String × String))
+    (sty : List (String × SheetVisible)) (sn : Option String) :
+    odsLoop (styleEvents st ++ rest) ⟨sh, nm, sty, sn, .top⟩ =
+      odsLoop rest ⟨sh, nm, (st.1, styleVis st.2) :: sty, some st.1, .top⟩ := by
+  obtain ⟨name, d⟩ := st
+  simp only [styleEvents, List.cons_append, List.nil_append]
+  rw [odsLoop]
+  simp only [if_true]
+  have hl : List.lookup "style:name" [("style:name", name), ("style:family", "table")] = some name := by simp [List.lookup]
+  rw [hl, odsLoop]
+  have hne : ("style:table-properties" : String) ≠ "style:style" := by decide
+  simp only [hne, if_false, Option.isSome_some, and_self, if_true]
+  cases d with
+  | none =>
+    simp only [List.lookup, Option.getD_some, styleVis]
+    rw [ods_top_end, ods_top_end]
+  | some b =>
+    cases b with
+    | true =>
+      have : List.lookup "table:display" [("table:display", "true")] = some "true" := by simp [List.lookup]
+      simp only [this, if_true, Option.getD_some, styleVis]
+      rw [ods_top_end, ods_top_end]
+    | false =>
+      have : List.lookup "table:display" [("table:display", "false")] = some "false" := by simp [List.lookup]
+      have hf : ("false" : String) ≠ "true" := by decide
+      simp only [this, hf, if_false, if_true, Option.getD_some, styleVis]
+      rw [ods_top_end, ods_top_end]
+end
+
+theorem ods_styles : ∀ (styles : List (String × Option Bool)) (rest : List Ev) (sh : List (Sheet String)) (nm : List (String × String))
+    (sty : List (String × SheetVisible)) (sn : Option String),
+    ∃ sn', odsLoop (styles.flatMap styleEvents ++ rest) ⟨sh, nm, sty, sn, .top⟩ =
+      odsLoop rest ⟨sh, nm, styleTable styles ++ sty, sn', .top⟩ := by
+  intro styles
+  induction styles with
+  | nil => intro rest sh nm sty sn; exact ⟨sn, by simp [styleTable]⟩
+  | cons s ss ih =>
+    intro rest sh nm sty sn
+    obtain ⟨sn', h⟩ := ih rest sh nm ((s.1, styleVis s.2) :: sty) (some s.1)
+    refine ⟨sn', ?_⟩
+    simp only [List.flatMap_cons, List.append_assoc]
+    rw [ods_style, h]
+    simp [styleTable]
+
+theorem ods_table_body : ∀ (body : List Ev), (∀ e ∈ body, e ≠ Ev.end_ "table:table") → ∀ (rest : List Ev) (sh : List (Sheet String))
+    (nm : List (String × String)) (sty : List (String × SheetVisible)) (sn : Option String),
+    odsLoop (body ++ rest) ⟨sh, nm, sty, sn, .table⟩ = odsLoop rest ⟨sh, nm, sty, sn, .table⟩ := by
+  intro body
+  induction body with
+  | nil => intros; rfl
+  | cons e es ih =>
+    intro hb rest sh nm sty sn
+    have he := hb e (by simp)
+    have hes : ∀ x ∈ es, x ≠ Ev.end_ "table:table" := fun x hx => hb x (by simp [hx])
+    simp only [List.cons_append]
+    cases e with
+    | end_ n =>
+      have hn : n ≠ "table:table" := fun h => he (by rw [h])
+      rw [odsLoop]; simp only [hn, if_false]; exact ih hes rest sh nm sty sn
+    | start n a => rw [odsLoop] <;> first | exact ih hes rest sh nm sty sn | simp
+    | text t => rw [odsLoop] <;> first | exact ih hes rest sh nm sty sn | simp
+    | other => rw [odsLoop] <;> first | exact ih hes rest sh nm sty sn | simp
+
+theorem ods_table (styles0 : List (String × Option Bool)) (t : OTable) (ht : t.ok) (rest : List Ev) (sh : List (Sheet String))
+    (nm : List (String × String)) (sn : Option String) :
+    odsLoop (tableEvents t ++ rest) ⟨sh, nm, styleTable styles0, sn, .top⟩ =
+      odsLoop rest ⟨sh ++ [⟨t.name, .workSheet, tableVis styles0 t⟩], nm, styleTable styles0, sn, .top⟩ := by
+  simp only [tableEvents, List.cons_append, List.append_assoc]
+  rw [odsLoop]
+  have h1 : ("table:table" : String) ≠ "style:style" := by decide
+  have h2 : ("table:table" : String) ≠ "style:table-properties" := by decide
+  simp only [h1, h2, if_false, and_false, if_true]
+  cases hs : t.styleName with
+  | none =>
+    have hl : List.lookup "table:name" [("table:name", t.name)] = some t.name := by simp [List.lookup]
+    have hl2 : List.lookup "table:style-name" [("table:name", t.name)] = none := by simp [List.lookup]
+    simp only [List.nil_append, hl, hl2]
+    rw [ods_table_body t.body ht]
+    rw [odsLoop]; simp only [if_true, tableVis, hs]
+  | some s =>
+    have hl : List.lookup "table:name" [("table:style-name", s), ("table:name", t.name)] = some t.name := by simp [List.lookup]
+    have hl2 : List.lookup "table:style-name" [("table:style-name", s), ("table:name", t.name)] = some s := by simp [List.lookup]
+    simp only [List.cons_append, List.nil_append, hl, hl2]
+    rw [ods_table_body t.body ht]
+    rw [odsLoop]; simp only [if_true, tableVis, hs]
+
+theorem ods_tables (styles0 : List (String × Option Bool)) : ∀ (tables : List OTable), (∀ t ∈ tables, t.ok) → ∀ (rest : List Ev)
+    (sh : List (Sheet String)) (nm : List (String × String)) (sn : Option String),
+    odsLoop (tables.flatMap tableEvents ++ rest) ⟨sh, nm, styleTable styles0, sn, .top⟩ =
+      odsLoop rest ⟨sh ++ tables.map (fun t => ⟨t.name, .workSheet, tableVis styles0 t⟩), nm, styleTable styles0, sn, .top⟩ := by
+  intro tables
+  induction tables with
+  | nil => intro _ rest sh nm sn; simp
+  | cons t ts ih =>
+    intro hall rest sh nm sn
+    simp only [List.flatMap_cons, List.append_assoc]
+    rw [ods_table styles0 t (hall t (by simp)), ih (fun x hx => hall x (by simp [hx]))]
+    simp [List.append_assoc]
+
+theorem ods_named : ∀ (names : List (String × String)) (rest : List Ev) (sh : List (Sheet String)) (nm : List (String × String))
+    (sty : List (String × SheetVisible)) (sn : Option String) (acc : List (String × String)),
+    odsLoop (names.flatMap namedRangeEvents ++ rest) ⟨sh, nm, sty, sn, .named acc⟩ =
+      odsLoop rest ⟨sh, nm, sty, sn, .named (acc ++ names)⟩ := by
+  intro names
+  induction names with
+  | nil => intros; simp
+  | cons n ns ih =>
+    intro rest sh nm sty sn acc
+    obtain ⟨name, addr⟩ := n
+    simp only [List.flatMap_cons, namedRangeEvents, List.cons_append, List.nil_append]
+    rw [odsLoop]
+    have h1 : isNamedElem "table:named-range" = true := by decide
+    have ha : namedAttrs [("table:name", name), ("table:cell-range-address", addr)] ("", "") = (name, addr) := by
+      simp [namedAttrs]
+    simp only [h1, if_true, ha]
+    rw [odsLoop]
+    simp only [h1, if_true]
+    rw [ih]
+    simp [List.append_assoc]
+
+
 end MetaLemmas
